@@ -778,6 +778,14 @@ func c13Sources(c *core.Ctx) []string {
 		// source offsets beyond 16 MiB: 5-byte varints in the positions and line tables
 		strings.Repeat(" ", 1<<24) + "\nprint 1 + \"s\"\n",
 	}
+	// string constants and block names that are not text: runs of continuation bytes, impossible bytes, cut
+	// characters, NULs, format verbs and quotes, 30..1200 bytes long (a cut may fall anywhere inside them)
+	for _, run := range []string{"\\x80", "\\xbf", "\\xff", "\\xe6\\xbc", "\\xf0\\x9f\\x98", "\\x00", "%s%d%!", "\\\"", "\\xed\\xa0\\x80", "é", "\\n"} {
+		for _, n := range []int{30, 100, 1200} {
+			body := strings.Repeat(run, n)
+			l = append(l, "print \""+body+"\"\ndef b \""+body+"\" { f = \"x"+body+"\" }\nbind b -> struct\n")
+		}
+	}
 	return l
 }
 
@@ -811,7 +819,9 @@ func init() {
 		Run: func(c *core.Ctx) {
 			var i int64
 			dumpSrc := func(src string) []byte {
-				p, err := bcl.Parse([]byte(src), "t", bcl.OptLogger(io.Discard), bcl.OptOutput(io.Discard))
+				// the program name is hostile text too for every third source
+				name := []string{"t", strings.Repeat("\x80", 40), strings.Repeat("\xff\x00%s", 30)}[len(src)%3]
+				p, err := bcl.Parse([]byte(src), name, bcl.OptLogger(io.Discard), bcl.OptOutput(io.Discard))
 				if err != nil {
 					return nil
 				}
